@@ -259,6 +259,7 @@ int main(int argc, char *argv[])
     return 2;
   }
   signal(SIGPIPE, SIG_IGN);
+  if (strcmp(argv[1], "cpulist") == 0) { return mode_cpulist(argc - 1, argv + 1); }
   if (strcmp(argv[1], "asm") == 0) { return mode_asm(argc - 1, argv + 1); }
   if (strcmp(argv[1], "disasm") == 0) { return mode_disasm(argc - 1, argv + 1); }
   if (strcmp(argv[1], "codec") == 0) { return mode_codec(argc - 1, argv + 1); }
